@@ -5,11 +5,11 @@ package main
 
 import (
 	"fmt"
-	"strings"
 	"go/ast"
 	"go/constant"
 	"go/token"
 	"go/types"
+	"strings"
 
 	"golang.org/x/tools/go/ssa"
 )
@@ -44,6 +44,10 @@ func init() {
 	wrap("C09", c09R11, "R11 (added): every place that asks whether a trust anchor is live compares its State with StateValid AND StateMissing together (same operand, same operator, one boolean expression) — RFC 5011 keeps a Missing key trusted, so staging, consumption and publication of revocations agree on the same live set.")
 	wrap("C12", c12R7, "R7 (added): the failover writer starts no fallback exchange for a request tree whose recursion-work ledger has already rejected it — every dnsclient exchange in failover.ResponseWriter.WriteMsg is behind RecursionWorkEnforcementError(ctx) == nil.")
 	wrap("C12", c12R8, "R8 (added): the alias chase in Cache.additionalAnswer re-enters its loop only across `counter > 0` for a counter that is carried round the loop (initialised outside it, decremented inside) — a bound that restarts every hop is no bound.")
+	wrap("C01", c01R12, "R12 (added): a zone's own DNSKEY response is verified only against keys the parent's DS set names — in verifyDNSSEC the full, still unauthenticated key set reaches VerifyRRSIGWithWork only on the msg != resp route (RFC 4035 §5.2).")
+	wrap("C02", c02R11, "R11 (added): the NSEC covering predicate consults an ancestor/descendant relation between the record's next name and the tested name and answers true on no path where next lies below the name — a name with something beneath it exists as an empty non-terminal and cannot be denied (RFC 4592 §2.2.2, RFC 8198 App. B).")
+	wrap("C01", c01R13, "R13 (added): in answer() and authority() the DS set handed to isZoneSecure / findDS / provenInsecureDelegation can come from the root trust anchors (dsRRFromRootKeys) — an empty set at the root means 'no referral followed yet', never 'insecure'.")
+	wrap("C07", c07R9, "R9 (added): a positive reply is relayed by Resolver.resolve only after its answer section was filtered to the zone that was asked (dnsutil.FilterRRsToZone on resp.Answer) — records a server volunteers about names outside its zone reach neither the client nor the NS-address collector.")
 	wrap("C13", c13R9, "R9 (added): Resolver.lookup gives up on a zone's remaining servers only for NXDOMAIN — after a failing reply is recorded, every path to the fallback verdict (which the caller turns into a zone failure) goes round the server loop again or crosses Rcode == NameError.")
 	wrap("C13", c13Extra, "R8 (added): a stored failure is turned into a hit (failureEntry.hit) only behind now.Before(<that entry>.retryAfter) — on the Msg and the wire lookup alike — so suppression ends with the backoff.")
 	wrap("C09", c09Extra, "R10 (added): tombstone precedence is unconditional — in the sweep over the loaded state and in the merge loops, the only conditions that may skip a tombstone check are the entry's own Revoked/Removed marker state.")
@@ -1044,41 +1048,65 @@ func c13R9(c *Ctx) {
 func c14R6(c *Ctx) {
 	const R = "C14-R6"
 	const pkg = "middleware/resolver/dnssec"
-	c.Doc(R, "oversizedKeyMaterial: a constant `return false` is reached only across len(publicKey) <= limit, or across the exit of a loop that runs over the whole string — and in that loop a counter compared `> limit` leads to `return true` and nowhere else; dsDigestMatches and KeyTag rely on this answer before decoding, so a wrapped key with more than maxDSKeyMaterial octets can never match a DS the library would not produce")
-	fn := c.fn(R, pkg+".oversizedKeyMaterial")
-	if fn == nil {
+	c.Doc(R, "oversizedKeyMaterial (and an unexported helper it returns the verdict of): a constant `return false` is reached only across len(key) <= limit, or across the exit of a loop whose counter ran to len(key) — and in that loop a counter compared `> limit` leads to `return true` and nowhere else; dsDigestMatches and KeyTag rely on this answer before decoding, so a wrapped key with more than maxDSKeyMaterial octets can never match a DS the library would not produce")
+	top := c.fn(R, pkg+".oversizedKeyMaterial")
+	if top == nil {
 		return
 	}
-	p0 := func(e *Expr) bool { e = strip(e); return e != nil && e.K == EParam && e.Idx == 0 }
 	anyP := func(e *Expr) bool { return e != nil }
-	retFalse := isReturnWith(0, IsConstBool(false))
-	if len(instrsWhere(fn, retFalse)) == 0 {
-		c.ok(R, R+"|oversizedKeyMaterial|no constant false", fn.Pos(), "the function returns a computed comparison, not a constant false (shape not judged by this rule)")
-		return
-	}
-	within := OnCmp("len(publicKey)<=limit", c14LenOf(p0), token.LEQ, anyP, true)
-	scanned := OnCmp("index ran to len(publicKey)", anyP, token.LSS, c14LenOf(p0), false)
-	rangeDone := OnFalse("range over the string exhausted", func(e *Expr) bool {
+	counter := func(e *Expr) bool {
 		e = strip(e)
-		return e != nil && e.K == EExtract && e.Idx == 0 && e.X != nil && e.X.K == ERange
-	})
-	c.MustCross(R, fn, "return false", retFalse, within, scanned, rangeDone)
-	// if a scan loop exists, the counter guard inside it must answer true
-	hasScan := len(edgePoints(fn, scanned))+len(edgePoints(fn, rangeDone)) > 0
-	if hasScan {
-		counter := func(e *Expr) bool {
+		return e != nil && (e.K == EPhi || (e.K == EBin && e.Op == token.ADD))
+	}
+	retFalse := isReturnWith(0, IsConstBool(false))
+	judged := 0
+	var check func(fn *ssa.Function, keyIdx int, depth int)
+	check = func(fn *ssa.Function, keyIdx int, depth int) {
+		p0 := func(e *Expr) bool { e = strip(e); return e != nil && e.K == EParam && e.Idx == keyIdx }
+		// the verdict may be delegated: return helper(key, …)
+		if depth < 2 {
+			for _, in := range instrsWhere(fn, isReturn) {
+				r := in.(*ssa.Return)
+				if in.Parent() != fn || len(r.Results) != 1 {
+					continue
+				}
+				if cl, ok := r.Results[0].(*ssa.Call); ok {
+					if h := localHelper(fn, &cl.Call); h != nil {
+						for i, a := range cl.Call.Args {
+							if p0(Desc(a)) {
+								check(h, i, depth+1)
+							}
+						}
+					}
+				}
+			}
+		}
+		if len(instrsWhere(fn, func(in ssa.Instruction) bool { return in.Parent() == fn && retFalse(in) })) == 0 {
+			return
+		}
+		judged++
+		within := OnCmp("len(key)<=limit", c14LenOf(p0), token.LEQ, anyP, true)
+		scanned := OnCmp("index ran to len(key)", counter, token.LSS, c14LenOf(p0), false)
+		rangeDone := OnFalse("range over the string exhausted", func(e *Expr) bool {
 			e = strip(e)
-			return e != nil && (e.K == EPhi || (e.K == EBin && e.Op == token.ADD))
+			return e != nil && e.K == EExtract && e.Idx == 0 && e.X != nil && e.X.K == ERange
+		})
+		c.MustCross(R, fn, "return false", retFalse, within, scanned, rangeDone)
+		if len(edgePoints(fn, scanned))+len(edgePoints(fn, rangeDone)) > 0 {
+			over := OnCmp("counter>limit", counter, token.GTR, anyP, true)
+			if len(edgePoints(fn, over)) == 0 {
+				c.violation(R, R+"|"+fn.Name()+"|counter guard", fn.Pos(), "the scan over the key never compares the counted material with the limit: every wrapped key is reported as within bounds")
+			} else {
+				c.AfterEdge(R, fn, "counted material above the limit is not answered with true", over, func(in ssa.Instruction) bool {
+					r, ok := in.(*ssa.Return)
+					return ok && len(r.Results) == 1 && !IsConstBool(true)(Desc(r.Results[0]))
+				})
+			}
 		}
-		over := OnCmp("counter>limit", counter, token.GTR, anyP, true)
-		if len(edgePoints(fn, over)) == 0 {
-			c.violation(R, R+"|oversizedKeyMaterial|counter guard", fn.Pos(), "the scan over the key never compares the counted material with the limit: every wrapped key is reported as within bounds")
-		} else {
-			c.AfterEdge(R, fn, "counted material above the limit is not answered with true", over, func(in ssa.Instruction) bool {
-				r, ok := in.(*ssa.Return)
-				return ok && len(r.Results) == 1 && !IsConstBool(true)(Desc(r.Results[0]))
-			})
-		}
+	}
+	check(top, 0, 0)
+	if judged == 0 {
+		c.ok(R, R+"|oversizedKeyMaterial|no constant false", top.Pos(), "the verdict is a computed comparison, not a constant false (shape not judged by this rule)")
 	}
 }
 
@@ -1692,4 +1720,314 @@ func c12R8(c *Ctx) {
 	if n == 0 {
 		c.unresolved(R, "additionalAnswer|internalExchange", "no call found")
 	}
+}
+
+// C01-R12: the DNSKEY RRset cannot vouch for itself.
+func c01R12(c *Ctx) {
+	const R = "C01-R12"
+	c.Doc(R, "Resolver.verifyDNSSEC: the key map handed to dnssec.VerifyRRSIGWithWork is, on every route where the message being validated IS the DNSKEY response the keys were read from (msg == resp), the result of a dnssec function that was given the parent DS set (the DS-matched keys); the locally collected map of every DNSKEY in the response reaches the verifier only across msg != resp, i.e. after those keys were authenticated by the DNSKEY sub-query. Otherwise any key an on-path attacker appends to the DNSKEY RRset can sign the RRset and everything below it (RFC 4035 §5.2)")
+	fn := c.fn(R, "middleware/resolver.(*Resolver).verifyDNSSEC")
+	verify := c.fobj(R, "middleware/resolver/dnssec.VerifyRRSIGWithWork")
+	if fn == nil || verify == nil {
+		return
+	}
+	isResp := func(e *Expr) bool { e = strip(e); return e != nil && e.K == EParam && e.Name == "resp" }
+	isDSParam := func(e *Expr) bool { e = strip(e); return e != nil && e.K == EParam && e.Name == "parentdsRR" }
+	notSame := []Barrier{
+		OnCmp("msg!=resp", func(e *Expr) bool { return e != nil }, token.EQL, isResp, false),
+	}
+	dsMatched := func(v ssa.Value) bool {
+		e := strip(Desc(v))
+		if e == nil {
+			return false
+		}
+		call := e
+		if e.K == EExtract {
+			call = strip(e.X)
+		}
+		if call == nil || call.K != ECall || call.Fn == nil || call.Fn.Pkg() == nil || !strings.HasSuffix(call.Fn.Pkg().Path(), "/resolver/dnssec") {
+			return false
+		}
+		for _, a := range call.Args {
+			if Contains(isDSParam)(a) {
+				return true
+			}
+		}
+		return false
+	}
+	n := 0
+	for _, in := range instrsWhere(fn, isPlainCallTo(verify)) {
+		if in.Parent() != fn {
+			continue
+		}
+		n++
+		key := R + "|verifyDNSSEC|key set that verifies the signer's own DNSKEY response"
+		bad := ""
+		seen := map[ssa.Value]bool{}
+		var walk func(v ssa.Value, guarded bool)
+		walk = func(v ssa.Value, guarded bool) {
+			if seen[v] && !guarded {
+				return
+			}
+			seen[v] = true
+			switch x := v.(type) {
+			case *ssa.Phi:
+				for i, e := range x.Edges {
+					g := guarded || c.edgeGuarded(x.Block().Preds[i], x.Block(), notSame, fn)
+					walk(e, g)
+				}
+			case *ssa.MakeMap:
+				if !guarded {
+					bad = "the map of every DNSKEY found in the response (built at " + c.P.pos(x.Pos()) + ")"
+				}
+			default:
+				if guarded || dsMatched(v) {
+					return
+				}
+				bad = "a key set of unknown origin: " + trunc(Desc(v).String(), 120)
+			}
+		}
+		ug, _ := c.unguarded(in, notSame, fn)
+		walk(callArg(in, 1), !ug)
+		if bad != "" {
+			c.violation(R, key, instrPos(in), "on the route where the validated message is the signer's own DNSKEY response (msg == resp) the signature may be checked against "+bad+": a key that merely appears in the RRset vouches for the RRset; only DS-matched keys may (RFC 4035 §5.2)")
+		} else {
+			c.ok(R, key, instrPos(in), "the unauthenticated key set reaches the verifier only across msg != resp; on msg == resp the keys come from the DS match")
+		}
+	}
+	if n == 0 {
+		c.unresolved(R, "verifyDNSSEC|VerifyRRSIGWithWork", "no call found")
+	}
+}
+
+// C02-R11: an empty non-terminal is not "covered".
+func c02R11(c *Ctx) {
+	const R = "C02-R11"
+	c.Doc(R, "dnssec.nsecCovers(owner, next, name): there is a boolean test relating exactly (next, name) — a descendant/suffix relation, which canonical ordering alone cannot express because an ancestor sorts directly before its descendants — such that on one of its edges no possibly-true return is reachable and every possibly-true return lies behind the other edge. Without it `a.example. NSEC x.b.example.` \"covers\" b.example. and an NXDOMAIN for the empty non-terminal b.example. validates")
+	fn := c.fn(R, "middleware/resolver/dnssec.nsecCovers")
+	if fn == nil {
+		return
+	}
+	idx := map[string]int{}
+	for i, p := range fn.Params {
+		idx[p.Name()] = i
+	}
+	in, okN := idx["next"]
+	im, okM := idx["name"]
+	key := R + "|nsecCovers|next-below-name test"
+	if !okN || !okM {
+		c.unresolved(R, "nsecCovers|parameters", "parameters next / name not found")
+		return
+	}
+	isP := func(i int) Pat {
+		return func(e *Expr) bool { e = strip(e); return e != nil && e.K == EParam && e.Idx == i }
+	}
+	rel := func(e *Expr) bool {
+		e = strip(e)
+		if e == nil || e.K != ECall || e.V == nil {
+			return false
+		}
+		if b, ok := e.V.Type().Underlying().(*types.Basic); !ok || b.Kind() != types.Bool {
+			return false
+		}
+		hasN, hasM, other := false, false, false
+		for _, a := range e.Args {
+			switch {
+			case Contains(isP(in))(a):
+				hasN = true
+			case Contains(isP(im))(a):
+				hasM = true
+			default:
+				if Contains(func(x *Expr) bool { return x.K == EParam })(a) {
+					other = true
+				}
+			}
+		}
+		return hasN && hasM && !other
+	}
+	mayTrue := func(x ssa.Instruction) bool {
+		r, ok := x.(*ssa.Return)
+		return ok && len(r.Results) == 1 && !IsConstBool(false)(Desc(r.Results[0]))
+	}
+	good := false
+	for _, pol := range []bool{true, false} {
+		var refuse, admit Barrier
+		if pol {
+			refuse, admit = OnTrue("rel(next,name)", rel), OnFalse("rel(next,name)", rel)
+		} else {
+			refuse, admit = OnFalse("rel(next,name)", rel), OnTrue("rel(next,name)", rel)
+		}
+		pts := edgePoints(fn, refuse)
+		if len(pts) == 0 {
+			continue
+		}
+		ok := true
+		for _, pt := range pts {
+			r := reach([]Point{pt}, nil, nil)
+			for _, t := range r.order {
+				if mayTrue(t) {
+					ok = false
+				}
+			}
+		}
+		for _, t := range instrsWhere(fn, mayTrue) {
+			if ug, _ := c.unguarded(t, []Barrier{admit}, fn); ug {
+				ok = false
+			}
+		}
+		if ok {
+			good = true
+		}
+	}
+	if good {
+		c.ok(R, key, fn.Pos(), "a name whose NSEC successor lies below it is never reported as covered")
+	} else {
+		c.violation(R, key, fn.Pos(), "nsecCovers decides by canonical order alone: an NSEC whose next name is a descendant of the tested name (the name is an empty non-terminal and EXISTS) is reported as covering it, so a replayed `a.example. NSEC x.b.example.` plus the apex NSEC validates NXDOMAIN for b.example.")
+	}
+}
+
+// C01-R13: the chain of trust starts at the anchors also for replies the root servers give themselves.
+func c01R13(c *Ctx) {
+	const R = "C01-R13"
+	const res = "middleware/resolver"
+	c.Doc(R, "Resolver.answer / Resolver.authority: the DS set passed to isZoneSecure, findDS and provenInsecureDelegation has, among its origins, the root trust anchors (a dsRRFromRootKeys result, directly or through a same-package helper that calls it) — not the raw parentDS parameter alone. Resolution starts at the root with an empty parentDS; without the anchor a non-referral reply from the root servers that is unsigned or signed by a zone below the root is taken for 'insecure' and relayed unvalidated")
+	rootDS := c.fobj(R, res+".(*Resolver).dsRRFromRootKeys")
+	if rootDS == nil {
+		return
+	}
+	consumers := []*types.Func{c.fobj(R, res+".(*Resolver).isZoneSecure"), c.fobj(R, res+".(*Resolver).findDS"), c.fobj(R, res+".(*Resolver).provenInsecureDelegation")}
+	callsRootDS := func(f *ssa.Function) bool {
+		for _, g := range scopeFuncs(f) {
+			if len(instrsWhere(g, isCallTo(rootDS))) > 0 {
+				return true
+			}
+		}
+		return false
+	}
+	anchored := func(e *Expr) bool {
+		e = strip(e)
+		if e == nil {
+			return false
+		}
+		call := e
+		if e.K == EExtract {
+			call = strip(e.X)
+		}
+		if call == nil || call.K != ECall {
+			return false
+		}
+		if sameFunc(call.Fn, rootDS) {
+			return true
+		}
+		if cv, ok := call.V.(*ssa.Call); ok {
+			if h := cv.Call.StaticCallee(); h != nil && len(h.Blocks) > 0 && fnPkg(h) == fnPkg(cv.Parent()) {
+				return callsRootDS(h)
+			}
+		}
+		return false
+	}
+	n := 0
+	for _, name := range []string{"answer", "authority"} {
+		fn := c.fn(R, res+".(*Resolver)."+name)
+		if fn == nil {
+			continue
+		}
+		for _, cons := range consumers {
+			if cons == nil {
+				continue
+			}
+			sig := cons.Type().(*types.Signature)
+			pi := -1
+			for i := 0; i < sig.Params().Len(); i++ {
+				if sig.Params().At(i).Name() == "parentDS" {
+					pi = i + 1 // receiver is argument 0
+				}
+			}
+			if pi < 0 {
+				continue
+			}
+			for _, in := range instrsWhere(fn, isPlainCallTo(cons)) {
+				n++
+				key := fmt.Sprintf("%s|%s|DS set handed to %s", R, name, cons.Name())
+				has := false
+				for _, l := range Origins(Desc(callArg(in, pi)), nil) {
+					if anchored(l) {
+						has = true
+					}
+				}
+				if has {
+					c.ok(R, key, instrPos(in), "the DS set can start at the root trust anchors")
+				} else {
+					c.violation(R, key, instrPos(in), cons.Name()+" receives the caller's parentDS as it came: at the root (no referral followed yet) that set is empty, so a non-referral root reply that is unsigned or signed below the root counts as insecure and is relayed to a CD=0 client without validation")
+				}
+			}
+		}
+	}
+	if n < 4 {
+		c.unresolved(R, "answer/authority consumers", fmt.Sprintf("expected isZoneSecure/findDS calls in answer and authority, found %d", n))
+	}
+}
+
+// C07-R9: the answer section is scrubbed to the bailiwick before it is relayed.
+func c07R9(c *Ctx) {
+	const R = "C07-R9"
+	const res = "middleware/resolver"
+	c.Doc(R, "Resolver.resolve: from the groupLookup call every path to Resolver.answer (the relay of a positive reply) stores dnsutil.FilterRRsToZone(…) into the reply's Answer, or runs with the root as the asked zone, or has an empty answer section; alternatively answer() itself stores the filtered section before any return. An out-of-zone address appended behind an in-zone CNAME is otherwise relayed to the client, and taken instead of re-resolving the target")
+	fn := c.fn(R, res+".(*Resolver).resolve")
+	ans := c.fn(R, res+".(*Resolver).answer")
+	gl := c.fobj(R, res+".(*Resolver).groupLookup")
+	filter := c.fobj(R, "internal/dnsutil.FilterRRsToZone")
+	answerF := c.field(R, "github.com/miekg/dns.Msg.Answer")
+	zoneF := c.field(R, "internal/authority.Servers.Zone")
+	if fn == nil || ans == nil || gl == nil || filter == nil || answerF == nil || zoneF == nil {
+		return
+	}
+	ansObj := funcObjOf(ans)
+	scrub := StoreBarrier("resp.Answer = FilterRRsToZone(…)", answerF, CallTo(filter))
+	isRootConst := func(e *Expr) bool {
+		e = strip(e)
+		return e != nil && e.K == EConst && e.Val != nil && e.Val.Kind() == constant.String && constant.StringVal(e.Val) == "."
+	}
+	atRoot := OnCmp("zone == \".\"", FieldIs(zoneF), token.EQL, isRootConst, true)
+	noAnswer := OnCmp("len(resp.Answer) == 0", c07Len(FieldIs(answerF)), token.GTR, IsConstInt(0), false)
+	key := R + "|resolve|answer section scrubbed before relay"
+	bad := ""
+	nfrom := 0
+	for _, in := range instrsWhere(fn, isPlainCallTo(gl)) {
+		if in.Parent() != fn {
+			continue
+		}
+		nfrom++
+		r := reach([]Point{pointAfter(in)}, []Barrier{scrub, atRoot, noAnswer}, nil)
+		for _, t := range r.order {
+			if isPlainCallTo(ansObj)(t) {
+				// the call itself may sit behind len(Answer) > 0; that does not scrub anything
+				bad = c.trail(r, t)
+				break
+			}
+		}
+	}
+	if nfrom == 0 {
+		c.unresolved(R, "resolve|groupLookup", "no call found")
+		return
+	}
+	if bad == "" {
+		c.ok(R, key, fn.Pos(), "every positive reply passes FilterRRsToZone(resp.Answer, asked zone) before answer()")
+		return
+	}
+	// alternative placement: inside answer(), before any return of a message
+	inAnswer := true
+	for _, t := range instrsWhere(ans, func(x ssa.Instruction) bool {
+		r, ok := x.(*ssa.Return)
+		return ok && x.Parent() == ans && len(r.Results) == 2 && !IsNilConst(Desc(r.Results[0]))
+	}) {
+		if ug, _ := c.unguarded(t, []Barrier{scrub}, ans); ug {
+			inAnswer = false
+		}
+	}
+	if inAnswer {
+		c.ok(R, key, ans.Pos(), "answer() scrubs the answer section before every return of a message")
+		return
+	}
+	c.violation(R, key, fn.Pos(), "a reply's answer section reaches Resolver.answer (and from there the client and the NS-address collector) without being filtered to the zone that was asked: `www.example.com. CNAME host.victim.net.` + `host.victim.net. A 6.6.6.6` from the example.com. servers is relayed as the answer; path "+bad)
 }
